@@ -83,7 +83,15 @@ func (n *Names) CoqDump(st *StepRec, blockName func(types.BlockID) uint64, full 
 		fullS = fmt.Sprintf("(Some (%s, %s, [%s], (%s, %s, %s)))", n.bucket(v.SC), n.bucket(v.SF), strings.Join(mc, "; "),
 			n.idList(st.ProbeSC), n.idList(st.ProbeSF), n.idList(st.ProbeFC))
 	}
-	return fmt.Sprintf("mk_dump %d [%s] [%s] %s %s", v.Height, strings.Join(fc, "; "), strings.Join(ex, "; "), n.idList(supb), fullS)
+	proofS := "None"
+	if full {
+		var ps []string
+		for _, p := range st.ProbeProofs {
+			ps = append(ps, fmt.Sprintf("(%d, %d)", p[0], p[1]))
+		}
+		proofS = fmt.Sprintf("(Some (%d, [%s]))", v.NumLeaves, strings.Join(ps, "; "))
+	}
+	return fmt.Sprintf("mk_dump %d [%s] [%s] %s %s %s", v.Height, strings.Join(fc, "; "), strings.Join(ex, "; "), n.idList(supb), fullS, proofS)
 }
 
 // CoqCase renders a history of the node as a Run_C02 case. Blocks are named by
